@@ -81,6 +81,13 @@ func ParseReadHoldingRegistersRequestTCP(data []byte) (*ReadHoldingRegistersRequ
 	if err != nil {
 		return nil, err
 	}
+	if len(data) < 12 {
+		tmpErr := NewErrorParseTCP(ErrIllegalDataValue, "received data length too short to be valid packet")
+		tmpErr.Packet.TransactionID = header.TransactionID
+		tmpErr.Packet.UnitID = data[6]
+		tmpErr.Packet.Function = FunctionReadHoldingRegisters
+		return nil, tmpErr
+	}
 	unitID := data[6]
 	if data[7] != FunctionReadHoldingRegisters {
 		tmpErr := NewErrorParseTCP(ErrIllegalFunction, "received function code in packet is not 0x03")
